@@ -379,6 +379,14 @@ def triage_harness(h, r):
     if unsupported:
         return "undecided", "unsupported construct reachable: " + unsupported[0]["description"][:120]
     if real_fail:
+        # A failed FRAME obligation ("OBL frame.…": an arm/callee the harness's decomposition relies on not
+        # being entered was entered) says that the code no longer fits this harness, not that the property
+        # is violated - e.g. a correct re-implementation that reaches its result through a different callee.
+        # The path ends at the frame assertion, so nothing behind it was decided: UNDECIDED, never an alarm.
+        frame = [c for c in real_fail if c["description"].strip('"').startswith("OBL frame.")]
+        if frame and len(frame) == len(real_fail):
+            return "undecided", "frame obligation failed (the code no longer fits this harness's decomposition; " \
+                "the property is not decided by it): " + "; ".join(sorted({c["description"].strip('"') for c in frame}))
         return "failed", real_fail
     if unwind_fail:
         return "undecided", "unwinding assertion failed (bound too small for this tree): " + \
